@@ -386,6 +386,13 @@ def source_derived(sc, group, cases_v=None):
     props_src = os.path.join(COQ, "src", "Src%sProps.v" % group)
     names = re.findall(r"^\s*Theorem\s+([A-Za-z0-9_']+)", open(props_src).read(), re.M)
     res["theorems"] = [{"name": n, "assumptions": None, "source_derived": True} for n in names]
+    # the translator's own self-test first: 31 constructs outside the fragment must be refused (fail-closed)
+    st = subprocess.run([sys.executable, os.path.join(VERIF, "tools", "test_py2coq.py"), os.path.join(sc.dir, "pyndl")],
+                        stdout=subprocess.PIPE, stderr=subprocess.STDOUT)
+    res["translator_self_test"] = st.stdout.decode(errors="replace").strip()[-300:]
+    if st.returncode != 0 and "does not translate" not in res["translator_self_test"]:
+        res["reason"] = "translator self-test failed: " + res["translator_self_test"]
+        return res
     r = subprocess.run([sys.executable, os.path.join(VERIF, "tools", "py2coq.py"), os.path.join(sc.dir, "pyndl"),
                         os.path.join(d, "GenSrc.v")], stdout=subprocess.PIPE, stderr=subprocess.STDOUT)
     try:
@@ -463,6 +470,7 @@ def fold_source_derived(ctx, sd, what):
     ctx.props["theorems"] = ctx.props["theorems"] + sd["theorems"]
     ctx.rep.note("source_derived_" + sd["group"].lower(), {
         "function": what, "translated_from_current_source": sd["translated"], "translator_refusal": sd["reason"],
+        "translator_self_test": sd.get("translator_self_test"),
         "theorems_rechecked_against_generated_term": sd["ok"],
         "coqc_output_tail": None if sd["ok"] else sd["output"][-1200:]})
     if not sd["ok"]:
